@@ -121,7 +121,7 @@ Definition inferred_gap_rows (masks : list N) (rows : list (string * string * st
     let at_ := String.append k (String.append ":" (String.append a (String.append ":" (digit d)))) in
     row_if "inferred-model" n at_ (N.lxor model (bits_of (N.testbit lint) masks))
     ++ row_if "inferred-interp" n at_
-         (bits_of (fun m => N.testbit lint m && negb (N.testbit interp m) && negb (use_gap_covers k n a m)) masks) end) rows.
+         (bits_of (fun m => if N.testbit lint m then (if N.testbit interp m then false else negb (use_gap_covers k n a m)) else false) masks) end) rows.
 Definition gaps_inferred : list gap_row :=
   inferred_gap_rows pair_masks obs_inferred ++ inferred_gap_rows triple_masks obs_inferred3.
 
